@@ -70,6 +70,20 @@ pub const BARE: &[&str] = &[
     "k7/2K5/8/8/8/8/8/1R6 w - - 0 1",
 ];
 
+/// Positions whose best move is of a special kind (promotion, capture-promotion, en passant,
+/// castling, double push). Searched again in the same process the answer may be served from what
+/// the earlier search stored: whatever is stored must still come out as a legal move, letter and all.
+pub const SPECIAL_BEST: &[(&str, &str)] = &[
+    ("promotion", "8/P6k/8/8/8/8/8/K7 w - - 0 1"),
+    ("promotion one move away", "8/7k/P7/8/8/8/8/K7 w - - 0 1"),
+    ("capture-promotion", "1r5k/P7/8/8/8/8/8/K7 w - - 0 1"),
+    ("en passant", "8/8/8/3pP3/8/8/8/K6k w - d6 0 1"),
+    ("castling (mates)", "8/8/8/4Q3/6p1/5k2/8/2N1K2R w K - 0 1"),
+    ("queen-side castling (mates)", "8/8/8/3Q4/1p6/2k5/8/R3K1N1 w Q - 0 1"),
+    ("double push", "7k/8/8/8/8/8/4P3/4K3 w - - 0 1"),
+];
+pub const SPECIAL_GOS: &[&str] = &["go depth 1", "go depth 2", "go depth 3", "go depth 4", "go movetime 37"];
+
 pub const HORIZON_S: u64 = 60;
 
 pub fn model_position(cmd: &str) -> Pos {
@@ -300,6 +314,50 @@ pub fn run(tier: &str, seed: u64, out: &str, exe: &str) {
         eprintln!("[C03] twin positions: {} groups, {} two-step histories, {} as expected ({:.1}s)", TWINS.len(), jobs.len(), res.iter().filter(|x| **x).count(), rep.elapsed());
         samples.push(J::Str(jobs[jobs.len() / 2].join(" | ")));
         parts.push(J::obj().set("part", "c: twin positions (one component differs), every ordered pair within a group x every pair of go sets").set("groups", TWINS.iter().map(|g| g.to_vec()).collect::<Vec<_>>()).set("runs", jobs.len()));
+    }
+
+    // ---- (e) positions whose best move is of a special kind, searched two and three times in one
+    // process with every pair (triple) of go sets; also with the colours exchanged
+    if !rep.saturated() {
+        let mut jobs: Vec<Vec<String>> = Vec::new();
+        for (_, f) in SPECIAL_BEST {
+            let p = Pos::from_fen(f).unwrap();
+            if let Err(e) = p.validity() {
+                eprintln!("MACHINERY ERROR: C03 special position {:?}: {}", f, e);
+                std::process::exit(2);
+            }
+            for q in [p.clone(), p.mirror()] {
+                let pc = format!("position fen {}", q.fen(0, 1));
+                for a in SPECIAL_GOS {
+                    for b in SPECIAL_GOS {
+                        jobs.push(vec![pc.clone(), a.to_string(), pc.clone(), b.to_string()]);
+                    }
+                }
+                for a in ["go depth 4", "go depth 2", "go movetime 3"] {
+                    for b in ["go depth 4", "go depth 2", "go movetime 3"] {
+                        for c in ["go depth 3", "go depth 1", "go movetime 3"] {
+                            jobs.push(vec![pc.clone(), a.to_string(), pc.clone(), b.to_string(), pc.clone(), c.to_string()]);
+                        }
+                    }
+                }
+            }
+        }
+        let res: Vec<bool> = par_map(&jobs, |h| {
+            if rep.saturated() {
+                return false;
+            }
+            runs.fetch_add(1, Ordering::Relaxed);
+            gos.fetch_add(h.iter().filter(|s| s.starts_with("go")).count() as u64, Ordering::Relaxed);
+            check_history(&rep, exe, h)
+        });
+        eprintln!("[C03] special best moves searched again: {} positions (both colours), {} histories, {} as expected ({:.1}s)", SPECIAL_BEST.len(), jobs.len(), res.iter().filter(|x| **x).count(), rep.elapsed());
+        parts.push(
+            J::obj()
+                .set("part", "e: positions whose best move is a promotion / capture-promotion / en passant / castling / double push, searched two and three times in one process (the later answers may be served from the table)")
+                .set("positions", SPECIAL_BEST.iter().map(|p| p.1).collect::<Vec<_>>())
+                .set("go_sets", SPECIAL_GOS.to_vec())
+                .set("runs", jobs.len()),
+        );
     }
 
     // ---- (d) single searches of many positions: every special root (with colour mirrors) and
